@@ -29,3 +29,21 @@ func verifCanonical(cl []string) []string {
 	sort.Strings(cl)
 	return cl
 }
+
+// VerifClassTable returns a copy of the flag-to-characters table.
+func VerifClassTable() map[CTFlag]string {
+	out := make(map[CTFlag]string, len(charTypeByFlag))
+	for f, s := range charTypeByFlag {
+		out[f] = s
+	}
+	return out
+}
+
+// VerifTokens builds a token sequence from values and type bytes.
+func VerifTokens(values []string, types []byte) Tokens {
+	ts := make(Tokens, len(values))
+	for i := range values {
+		ts[i] = Token{values[i], TokenType(types[i])}
+	}
+	return ts
+}
